@@ -235,26 +235,23 @@ func decimalOf(tb *TB, t *Term) (*Term, bool) {
 	if t.Op != "call" {
 		return nil, false
 	}
-	strip := func(x *Term) *Term {
-		for x.Op == "conv" && len(x.Args) == 1 {
-			x = x.Args[0]
-		}
-		return x
-	}
+	// conversions that survive in a term are the value-changing ones (narrowing or sign change; the
+	// value-preserving ones are elided when the term is built), so they are not looked through:
+	// Itoa(int(x)) of an unsigned x prints a negative number from 2^(bits-1) on
 	switch t.Sym {
 	case "fmt.Sprintf":
 		if len(t.Args) == 2 && t.Args[0].IsConst() && t.Args[0].Sym == `"%d"` {
 			if el := varargsElems(tb, t.Args[1]); len(el) == 1 {
-				return strip(el[0]), true
+				return el[0], true
 			}
 		}
 	case "strconv.FormatUint", "strconv.FormatInt":
 		if len(t.Args) == 2 && t.Args[1].IsConst() && t.Args[1].Sym == "10" {
-			return strip(t.Args[0]), true
+			return t.Args[0], true
 		}
 	case "strconv.Itoa":
 		if len(t.Args) == 1 {
-			return strip(t.Args[0]), true
+			return t.Args[0], true
 		}
 	}
 	return nil, false
@@ -300,12 +297,8 @@ func defaultedInt(tb *TB, uf *ssa.Function, x *Term, fieldT, fieldName_, def str
 		}
 		return n > 0
 	}
-	strip := func(x *Term) *Term {
-		for x.Op == "conv" && len(x.Args) == 1 {
-			x = x.Args[0]
-		}
-		return x
-	}
+	// no conversion is looked through: those left in a term change the value (narrowing / sign)
+	strip := func(x *Term) *Term { return x }
 	nx := strip(tb.Norm(x))
 	if nx.Op == "ite" && len(nx.Args) == 3 {
 		cond, th, el := nx.Args[0], strip(nx.Args[1]), strip(nx.Args[2])
